@@ -168,7 +168,9 @@ pub fn run_loop(it: &mut Interp, shape: &Shape, ctxs: &[usize], n: u32, failures
         let _ = it.eval(FDEEP);
         for k in 0..failures_before {
             let o = it.eval(FAILING[k as usize % FAILING.len()]);
-            assert!(!matches!(o, Outcome::Val(_)), "a failing form succeeded: {}", FAILING[k as usize % FAILING.len()]);
+            if matches!(o, Outcome::Val(_)) {
+                crate::drive::impl_fail(&format!("the erroneous form {} is accepted: {}", FAILING[k as usize % FAILING.len()], o));
+            }
         }
     }
     let (defs, start) = program(shape, ctxs, n);
@@ -279,7 +281,7 @@ pub fn run(ctx: &Ctx) -> i32 {
         total,
         4,
         |_| {
-            let it = Interp::new().expect("interpreter");
+            let it = Interp::must_new();
             it.it.env.define("probe".to_string(), probe_proc());
             it
         },
